@@ -76,9 +76,12 @@ type Plan struct {
 	// buffer's worth of data blocks in its write) and closes both hops only StallMs later.
 	// A negative value: never (until the session is shut down).
 	StallMs int
-	Type    byte
-	Level   string
-	Bytes   []byte
+	// cut: applies to the next message on the plugin service connection only; once that has
+	// gone through whole the plan is dropped (Report.Passed)
+	OneMsg bool
+	Type   byte
+	Level  string
+	Bytes  []byte
 
 	ConnID    uint32 // trunk-level garbage: forged conn id
 	DeclLen   uint32 // declared payload length of the forged header (clamped to MaxDeclaredLen)
@@ -96,6 +99,7 @@ type Report struct {
 	Stream    uint32 // ttRPC stream id of the first request seen while armed
 	Swallowed int    // bytes of plugin traffic dropped after a replacement
 	Answered  bool   // leave: a complete response went to the runtime while armed
+	Passed    bool   // cut with OneMsg: the message went through, the cut point lay beyond it
 }
 
 // Proxy is one plugin connection with fault injection.
@@ -110,8 +114,8 @@ type Proxy struct {
 	left     int
 	rep      Report
 	swallow  bool
-	p2r      msgTracker // follows everything passed on to the runtime
-	closer   string     // who ended the session first: "", "proxy", "runtime", "plugin"
+	trk      [2]msgTracker // follow everything passed on, per direction
+	closer   string        // who ended the session first: "", "proxy", "runtime", "plugin"
 	closedAt time.Time
 	pumps    sync.WaitGroup
 	ready    chan struct{}
@@ -286,9 +290,15 @@ func (p *Proxy) forward(d int, dst net.Conn, b []byte) bool {
 		p.rep.Fwd[d] += len(b)
 	}
 	leave, leaveMs := false, 0
-	if d == P2R && p.p2r.feed(b) > 0 && p.plan != nil && p.plan.Kind == "leave" && !p.rep.Answered {
+	msgs := p.trk[d].feed(b)
+	if d == P2R && msgs > 0 && p.plan != nil && p.plan.Kind == "leave" && !p.rep.Answered {
 		p.rep.Answered = true
 		leave, leaveMs = true, p.plan.StallMs
+	}
+	if msgs > 0 && !fire && p.plan != nil && p.plan.Kind == "cut" && p.plan.Dir == d && p.plan.OneMsg && !p.rep.Fired {
+		// the message the cut was meant for went through whole: the cut point lay beyond it
+		p.rep.Passed = true
+		p.plan = nil
 	}
 	p.mu.Unlock()
 	if len(b) > 0 {
